@@ -20,4 +20,15 @@ C03_Full == { Lf("M",0,1), Lf("X",0,3), Lf("us",0,0), Lf("seto",1,0), Lf("seto",
 C03_Lite == { Lf("M",0,0), Lf("M",0,1) }
 C03_Constructs == {"seq", "and", "or", "not", "grp", "sub", "fn", "eval", "cs", "pipe", "for2", "if", "elif", "while", "until", "case"}
 C03_Cases == { <<1, 1, 0>>, <<2, 3, 1>>, <<2, 3, 2>> }
+
+\* ---- C16 (EXIT / ERR traps): the focus leaf is a way out of the shell (or a failing command for ERR)
+C16_Full == { Lf("M",0,0), Lf("M",0,1), Lf("X",0,3), Lf("us",0,0), Lf("fe",0,0), Lf("exit",4,0), Lf("ret",5,0), Lf("execx",6,0) }
+C16_Lite == { Lf("M",0,0), Lf("M",0,1) }
+C16_Constructs == {"seq", "and", "or", "not", "grp", "sub", "fn", "eval", "for2", "if", "while", "case"}
+C16_Cases == { <<1, 1, 0>>, <<2, 3, 1>> }
+\* C03 nesting: exempt context > boundary (function / group / subshell / $( ) / eval / pipeline) > list with a failing non-final command
+C03N_Full == { Lf("M",0,1), Lf("X",0,3) }
+C03N_Lite == { Lf("M",0,0) }
+C03N_Constructs == {"seq", "and", "or", "not", "grp", "sub", "fn", "eval", "cs", "pipe", "if", "while"}
+C03N_Cases == { <<1, 1, 0>> }
 =============================================================================
